@@ -335,6 +335,16 @@ def oracle_c04(b, report, linked=None):
     elif len(b.img) != space * LBS:
         report('length', 'image length %d bytes differs from the declared volume size %d sectors (%d bytes)'
                % (len(b.img), space, space * LBS), None)
+    # exact size: the declared volume ends where the last object ends (no dangling sectors that an
+    # accounting delta forgot to release)
+    segs = [sg for sg in rd.segments if sg[1] > 0]
+    if segs:
+        last_end = max((sg[0] + sg[1] + LBS - 1) // LBS for sg in segs)
+        if last_end < space:
+            lastseg = max(segs, key=lambda sg: sg[0] + sg[1])
+            report('slack:trailing-unused-sectors', 'the declared volume size is %d sectors but the last on-disc object (%s at '
+                   'sector %d) ends at sector %d: %d sector(s) at the end belong to nothing' % (space, lastseg[2], lastseg[0] // LBS,
+                                                                                             last_end, space - last_end), None)
     # every VD copy declares the same size
     for vd in rd.vds:
         if isinstance(vd, dict) and vd.get('space_size') not in (None, space):
